@@ -168,6 +168,32 @@ func c17One(x *ctx, c importCase) bool {
 		}
 		lc.Main = "f0.yaml"
 		c.How = "missing-or-unparsable"
+	case "symlink-import", "symlink-dir-member", "symlink-global", "symlink-main":
+		// a file of the closure reached through a symbolic link is a file like any other
+		real := "tasks:\n  t1:\n    command: echo 1\n"
+		switch c.Special {
+		case "symlink-import":
+			lc.Files["f0.yaml"] = "import: [sub/link.yaml]\ntasks:\n  t0:\n    command: echo 0\n"
+			lc.Files["store/real.yaml"] = real
+			lc.Files["sub/link.yaml"] = "<SYMLINK>../store/real.yaml"
+			wantTasks = []string{"t0", "t1"}
+		case "symlink-dir-member":
+			lc.Files["f0.yaml"] = "import: [sub]\ntasks:\n  t0:\n    command: echo 0\n"
+			lc.Files["store/real.yaml"] = real
+			lc.Files["sub/link.yaml"] = "<SYMLINK>../store/real.yaml"
+			lc.Files["sub/d1.yaml"] = "tasks:\n  d1:\n    command: echo d\n"
+			wantTasks = []string{"t0", "t1", "d1"}
+		case "symlink-global":
+			lc.Files["f0.yaml"] = "tasks:\n  t0:\n    command: echo 0\n"
+			lc.Files["store/global.yaml"] = real
+			lc.Home = map[string]string{".taskctl/config.yaml": "<SYMLINK>../../store/global.yaml"}
+			wantTasks = []string{"t0", "t1"}
+		case "symlink-main":
+			lc.Files["store/real.yaml"] = "tasks:\n  t0:\n    command: echo 0\n"
+			lc.Files["f0.yaml"] = "<SYMLINK>store/real.yaml"
+			wantTasks = []string{"t0"}
+		}
+		lc.Main = "f0.yaml"
 	case "twice", "two-spellings", "dir-and-file":
 		imp := map[string]string{"twice": "[sub/f1.yaml, sub/f1.yaml]", "two-spellings": "[sub/f1.yaml, sub/../sub/f1.yaml, ./sub/f1.yaml]", "dir-and-file": "[sub, sub/f1.yaml]"}[c.Special]
 		lc.Files["f0.yaml"] = "import: " + imp + "\ntasks:\n  t0:\n    command: echo 0\n"
@@ -325,7 +351,7 @@ func unitC17(x *ctx) {
 			}
 		})
 	case "c17-special":
-		for _, s := range []string{"dir0", "dir1", "dir2", "dir-nested", "twice", "two-spellings", "dir-and-file", "dir-member-missing-import", "dir-member-unparsable", "dir-member-missing-import-2", "dir-member-dangling-symlink-free"} {
+		for _, s := range []string{"dir0", "dir1", "dir2", "dir-nested", "twice", "two-spellings", "dir-and-file", "dir-member-missing-import", "dir-member-unparsable", "dir-member-missing-import-2", "dir-member-dangling-symlink-free", "symlink-import", "symlink-dir-member", "symlink-global", "symlink-main"} {
 			do(importCase{Special: s, Broken: -1, Formats: yaml3})
 		}
 		for split := 0; split < 16; split++ {
